@@ -1,14 +1,20 @@
 #!/bin/bash
-# tools/run_seeds.sh [seed-dir...]   apply each seeded change to /repo, run the check of its property (quick), undo
+# tools/run_seeds.sh [seed-dir...]   apply each seeded change to a scratch copy of /repo's HEAD, run the
+# quick check of its property against that copy (ARKVC_REPO), undo. /repo itself is not touched and
+# the evidence files of these runs go to /var/tmp/seed_evidence, not to /verif/evidence.
 cd /verif
-if [ -n "$(git -C /repo status --porcelain)" ]; then echo "refusing: /repo has uncommitted changes (they would be lost)"; exit 2; fi
+S=/var/tmp/seedrepo
+rm -rf "$S"
+git clone -q /repo "$S" || exit 2
+trap 'rm -rf "$S"' EXIT
 for d in "${@:-seeded/*}"; do
   [ -f "$d/patch.diff" ] || continue
   id=$(basename "$d" | cut -d- -f1)
-  git -C /repo apply "$(pwd)/$d/patch.diff" || { echo "$d: patch does not apply"; continue; }
-  out=$(ARKVC_EVIDENCE_DIR=/var/tmp/seed_evidence ./check "$id" quick 2>&1)
+  git -C "$S" apply "$(pwd)/$d/patch.diff" || { echo "$d: patch does not apply"; continue; }
+  out=$(ARKVC_REPO="$S" ARKVC_EVIDENCE_DIR=/var/tmp/seed_evidence ./check "$id" quick 2>&1)
   rc=$?
-  git -C /repo checkout -- .
+  git -C "$S" checkout -q -- .
+  git -C "$S" clean -fdq
   n=$(echo "$out" | grep -c "^VIOLATION")
   echo "$d: exit=$rc violations=$n  $(echo "$out" | grep '^VIOLATION' | head -2 | cut -c1-220 | tr '\n' ' ')"
 done
